@@ -108,6 +108,26 @@ func c11Hang(d *vCtx) error {
 				jobs = append(jobs, job{c, e2ePlan{Silence: &e2eSil{Dir: "s2c", K: -1}, CheckLeft: true}})
 			}
 		}
+		// acks go silent when the probing is long over and the ack window is full: many small chunks
+		// (buffer size fixed at 1 KiB) of an incompressible file are in flight when the peer falls silent
+		for _, proto := range []int{4, 2} {
+			for _, up := range []bool{true, false} {
+				long := &e2eCase{Seed: d.seed + 177, NamesFromTops: true, WatchdogMs: 45000}
+				long.Opts = e2eOpts{Upload: up, Binary: proto == 4, Protocol: proto, Timeout: 2, Bufsize: 1024, Compress: 2}
+				long.Nodes = []e2eNode{{Rel: "long.bin", Size: 200 << 10, Kind: 1}}
+				long.Bases = []string{""}
+				dir := "s2c"
+				if !up {
+					dir = "c2s"
+				}
+				for _, k := range []int{14, 40} {
+					if k == 40 && !thorough && proto == 2 {
+						continue
+					}
+					jobs = append(jobs, job{long, e2ePlan{Silence: &e2eSil{Dir: dir, K: k}, CheckLeft: true}})
+				}
+			}
+		}
 		// acks go silent while the buffer size is still being probed (known scenario), both directions
 		for _, k := range []int{3, 5, 6, 8} {
 			jobs = append(jobs, job{big, e2ePlan{Silence: &e2eSil{Dir: "s2c", K: k}, CheckLeft: true}})
